@@ -82,7 +82,7 @@ CHECKS = {
         "timeout": {"quick": 1200, "thorough": 14000},
     },
     "C14": {
-        "scenarios": [("C14-sweep", "vsim"), ("C02-udp", "vsim", 0.5), ("C01-tcp", "vsim", 0.5)],
+        "scenarios": [("C14-sweep", "vsim"), ("C02-udp", "vsim", 0.5), ("C01-tcp", "vsim", 0.5), ("C02-api", "vsim")],
         "rides_on": ["C14"],
         "side_only": True,
         "rule": "configuration sweep: MTU per side (8 boundary values quick, all 1280..1500 thorough) x padding maxima {unset,0,1,128,255,"
